@@ -1085,6 +1085,19 @@ def prepare(prog):
     return env
 
 
+@A()
+def _prelude_task():
+    v = yield DebugBatchItem("prelude", 1)
+    return v
+
+
+def prelude():
+    """an ordinary small computation that ran on this thread before the harness subscribed to anything"""
+    with sink.capture_print():
+        _prelude_task()
+    _batching._debug_batch_state.batches.clear()
+
+
 def interlude():
     """what ordinary starting code does between two computations: with-blocks entered and left outside any task"""
     v = AsyncScopedValue("interlude")
